@@ -696,6 +696,7 @@ func parseCase(t *tr.W, r *rand.Rand, rounds int) {
 }
 
 func Run(t *tr.W, thorough bool) {
+	tr.MaxHangs = 8
 	base0 = runtime.NumGoroutine()
 	budget := tr.EnvInt("VERIF_BUDGET", 1)
 	r := tr.Rng(15)
